@@ -397,6 +397,9 @@ def foreign_readers(seed, n=10, home_own_volume=False):
             tdir = os.fsencode(box.make_tdir(kind))
             inside_v1 = rnd.random() < 0.7 or kind != 'home'
             top = rootb + b'/m1' if (kind != 'home') else (rootb if rnd.random() < 0.5 else rootb + b'/m1')
+            outside = kind in ('t1', 't2') and not linked and rnd.random() < 0.25
+            if outside:
+                top = rootb + b'/old-mount'        # an absolute Path that does not lie under $topdir (a disk mounted elsewhere before)
             dirs = [b'o%d' % i] + rand_dirs(rnd, depth=rnd.choice([0, 1, 2]))
             if rnd.random() < 0.03:
                 # a legal path (about 1500 bytes) whose percent-encoding is longer than PATH_MAX
@@ -404,6 +407,8 @@ def foreign_readers(seed, n=10, home_own_volume=False):
             name = rand_name(rnd, maxlen=60, utf8_only=True)
             absp = top + b'/' + b'/'.join(dirs + [name])
             relp = b'/'.join(dirs + [name]) if kind != 'home' or rnd.random() < 0.3 else None
+            if outside:
+                relp = None
             if linked:
                 relp = b'm1/' + relp
             if rnd.random() < 0.12:
@@ -550,6 +555,15 @@ def expiry(seed, n=40):
         if rnd.random() < 0.3:
             now = rnd.choice([datetime.datetime(2024, 3, 1, 0, 0, 0), datetime.datetime(2021, 3, 1, 0, 0, 0),
                               datetime.datetime(2100, 3, 1, 12, 0, 0), datetime.datetime(2000, 1, 1, 0, 0, 0)])
+        # the rule is about wall-clock values as recorded (no time zone in a .trashinfo): a time zone with daylight saving,
+        # and a "now - DAYS" span that crosses a switch, must change nothing
+        tz = None
+        if rnd.random() < 0.35:
+            tz = rnd.choice(['CET-1CEST,M3.5.0,M10.5.0/3', 'EST5EDT,M3.2.0,M11.1.0', 'NZST-12NZDT,M9.5.0,M4.1.0/3'])
+            now = rnd.choice([datetime.datetime(2021, 3, 29, 12, 0, 0), datetime.datetime(2021, 11, 1, 12, 0, 0),
+                              datetime.datetime(2021, 3, 15, 12, 0, 0), datetime.datetime(2021, 11, 8, 12, 0, 0),
+                              datetime.datetime(2021, 9, 27, 12, 0, 0), datetime.datetime(2021, 4, 5, 12, 0, 0)])
+            days = rnd.choice([1, 2, 3, 7])
         try:
             limit = now - datetime.timedelta(days=days)
         except OverflowError:
@@ -588,7 +602,7 @@ def expiry(seed, n=40):
         nows = now.strftime('%Y-%m-%dT%H:%M:%S')
         if now.year < 1000:
             nows = '%04d' % now.year + nows[len(str(now.year)):]
-        res = box.run('trash-empty', argv, env={'TRASH_DATE': nows})
+        res = box.run('trash-empty', argv, env=dict({'TRASH_DATE': nows}, **({'TZ': tz} if tz else {})))
         for slot, content in ents:
             info = os.path.lexists(tdir + b'/info/' + slot + b'.trashinfo')
             pay = os.path.lexists(tdir + b'/files/' + slot)
@@ -901,12 +915,30 @@ def foreign_restore(seed, n=6, occupied=False):
                 # something already lives at the original location (C06): nothing may be restored, nothing may change there
                 dest = os.path.normpath(absp.rstrip(b'/')) if b'/no-such-dir/../' in absp else absp.rstrip(b'/')
                 os.makedirs(os.path.dirname(dest), exist_ok=True)
-                occ = rnd.choice(['file', 'dlink', 'flink', 'dir', 'emptydir'])
+                occ = rnd.choice(['file', 'dlink', 'flink', 'dir', 'emptydir', 'fifo', 'socket'])
                 if occ == 'file':
                     with open(dest, 'wb') as f:
                         f.write(b'occupant')
                 elif occ == 'dlink':
                     os.symlink(b'/nonexistent/occupant', dest)
+                elif occ == 'fifo':
+                    os.mkfifo(dest)
+                elif occ == 'socket':
+                    import socket as _socket
+                    sk = _socket.socket(_socket.AF_UNIX)
+                    try:
+                        cwd0 = os.getcwd()
+                        os.chdir(os.path.dirname(dest))          # sun_path is short: bind by base name
+                        try:
+                            sk.bind(os.path.basename(dest)[:90])
+                        finally:
+                            os.chdir(cwd0)
+                    except OSError:
+                        os.mkfifo(dest)
+                    finally:
+                        sk.close()
+                    if not os.path.lexists(dest):
+                        os.mkfifo(dest)
                 elif occ == 'flink':
                     with open(dest + b'.target', 'wb') as f:
                         f.write(b'occupant target')
